@@ -84,6 +84,9 @@ def gen_layout(rng: random.Random) -> dict:
         if dim == 3:
             xy.append(G.pick(rng, [0.0, 5.0, -5.0]))
         coords.append(xy)
+    if rng.random() < 0.3:
+        # coordinates that round to NEGATIVE zero (what cos/sin layouts contain)
+        coords = [[(-1e-12 if v == 0.0 and rng.random() < 0.7 else v) for v in c] for c in coords]
     return {"coords": coords, "slug": G.pick(rng, [None, None, "lay-" + str(rng.randrange(100))])}
 
 
@@ -132,6 +135,13 @@ def gen_device(rng: random.Random) -> dict:
         s["noise"] = gen_noise(rng)
     if s["kind"] == "physical" and rng.random() < 0.4:
         s["layouts"] = [{"coords": [[x * 5.0, y * 5.0] for x in range(3) for y in range(2)], "slug": "cal%d" % rng.randrange(9)}]
+        r = rng.random()
+        if r < 0.3:
+            # a second layout, with the SAME name (names are not identities)
+            s["layouts"].append({"coords": [[x * 6.0, y * 6.0] for x in range(2) for y in range(3)], "slug": s["layouts"][0]["slug"]})
+        elif r < 0.5:
+            s["layouts"].append({"coords": [[x * 6.0, y * 6.0] for x in range(2) for y in range(3)], "slug": None})
+            s["layouts"].append({"coords": [[x * 7.0, y * 5.0] for x in range(2) for y in range(2)], "slug": None})
     return s
 
 
